@@ -68,6 +68,7 @@ let parse_accessor (s : string) : accessor =
       let mode = match k.[1] with
         | 'C' -> SCase (fab, nlist cats)
         | 'P' -> SPase fab
+        | 'G' -> SGroup (fab, n_of_string _gid)
         | _ -> failwith ("bad session kind " ^ s) in
       for_session mode peer aux
   | _ -> failwith ("bad accessor " ^ s)
@@ -81,7 +82,10 @@ let parse_leaf (s : string) : leaf =
 let parse_cluster (s : string) : cluster =
   match String.split_on_char '=' s with
   | [id; attrs; cmds] ->
-      { c_id = n_of_string id; c_attrs = plist parse_leaf '/' attrs; c_cmds = plist parse_leaf '/' cmds }
+      { c_id = n_of_string id; c_attrs = plist parse_leaf '/' attrs; c_cmds = plist parse_leaf '/' cmds; c_events = [] }
+  | [id; attrs; cmds; evs] ->
+      { c_id = n_of_string id; c_attrs = plist parse_leaf '/' attrs; c_cmds = plist parse_leaf '/' cmds;
+        c_events = plist parse_leaf '/' evs }
   | _ -> failwith ("bad cluster " ^ s)
 
 let parse_endpoint (s : string) : endpoint =
@@ -102,11 +106,16 @@ let parse_item (s : string) : item =
   | _ -> failwith ("bad item " ^ s)
 
 let parse_op = function
-  | "R" -> Read | "W" | "C" -> Write | "I" -> Invoke | s -> failwith ("bad op " ^ s)
+  | "R" | "E" | "S" -> Read | "W" | "C" -> Write | "I" -> Invoke | s -> failwith ("bad op " ^ s)
+
+let parse_qevent (s : string) : qevent =
+  match String.split_on_char '.' s with
+  | [e; c; i; f] -> { qe_ep = n_of_string e; qe_cl = n_of_string c; qe_id = n_of_string i; qe_fab = opt_n f }
+  | _ -> failwith ("bad event " ^ s)
 
 (* cont: a continuation chunk (op C) of the preceding write on the same exchange; its rq_elapsed is
    the wait before it (made cumulative when the chunks are grouped) *)
-type preq = { rq : imreq; swaps : (int * int * int) list; nitems : int; cont : bool; is_write : bool }
+type preq = { rq : imreq; swaps : (int * int * int) list; nitems : int; cont : bool; is_write : bool; kind : string }
 
 let parse_req (s : string) : preq =
   match String.split_on_char ',' s with
@@ -120,7 +129,7 @@ let parse_req (s : string) : preq =
                               | [j; a] -> (int_of_string k, int_of_string j, int_of_string a)
                               | _ -> (int_of_string k, int_of_string j, 0))
                          | _ -> failwith ("bad swap " ^ x)) ':' swaps;
-        nitems = List.length its; cont = (op = "C"); is_write = (op = "W" || op = "C") }
+        nitems = List.length its; cont = (op = "C"); is_write = (op = "W" || op = "C"); kind = op }
   | _ -> failwith ("bad request " ^ s)
 
 (* ---- printing *)
@@ -147,7 +156,7 @@ let show_resp = function
 (* ---- parsing an implementation response back *)
 let all_status = [SSuccess; SUnsupportedAccess; SUnsupportedEndpoint; SInvalidAction; SUnsupportedCommand;
                   SUnsupportedAttribute; SUnsupportedWrite; SUnsupportedRead; STimeout; SUnsupportedCluster;
-                  SNeedsTimedInteraction; STimedRequestMisMatch]
+                  SNeedsTimedInteraction; STimedRequestMisMatch; SUnsupportedEvent]
 
 exception Unparsed
 
@@ -223,8 +232,14 @@ let () =
         match String.index_opt line '\t' with
         | Some i -> (String.sub line 0 i, String.sub line (i + 1) (String.length line - i - 1))
         | None -> (line, "") in
-      match String.split_on_char ' ' case_line with
+      let fields = String.split_on_char ' ' case_line in
+      let (fields, queue) = match fields with
+        | ["Q"; a; b; c; d; e; f; evs] -> (["Q"; a; b; c; d; e; f], plist parse_qevent '&' evs)
+        | l -> (l, []) in
+      match fields with
       | ["Q"; id; mp; fabs; acc; nodes; reqs] ->
+          let is_group = String.length acc >= 2 && String.sub acc 0 2 = "SG" in
+          let paths_of r = List.map (fun it -> it.it_path) r.rq.rq_items in
           let max_paths = nat_of_int (int_of_string mp) in
           let tables = List.map (plist parse_fabric '|') (String.split_on_char '!' fabs) in
           let tab_arr = Array.of_list tables in
@@ -271,6 +286,17 @@ let () =
                 if List.exists (fun t -> t = None) toks then '.'
                 else begin
                   try
+                    if is_group then begin
+                      (* one token per request: GL[calls] *)
+                      let ok = List.for_all2 (fun r t ->
+                        match t with
+                        | Some t when String.length t >= 4 && String.sub t 0 3 = "GL[" ->
+                            let log = String.sub t 3 (String.length t - 4) in
+                            holds_group max_paths who c0.cf_node c0.cf_fabs r.rq
+                              (plist parse_call ',' (if log = "" then "-" else log))
+                        | _ -> raise Unparsed) g toks in
+                      if ok then '1' else '0'
+                    end else
                     if head.is_write then begin
                       (* the answers up to the first N; nothing but N may follow *)
                       let rec split = function
@@ -298,7 +324,11 @@ let () =
                       end
                     end else begin
                       match toks with
-                      | [Some t] -> if holds max_paths who c0 (swl head) head.rq (parse_resp t) then '1' else '0'
+                      | [Some t] ->
+                          if head.kind = "E" || head.kind = "S" then
+                            (if holds_events (head.kind = "S") who c0.cf_node c0.cf_fabs (paths_of head) queue (parse_resp t)
+                             then '1' else '0')
+                          else if holds max_paths who c0 (swl head) head.rq (parse_resp t) then '1' else '0'
                       | _ -> '.'
                     end
                   with Unparsed | Not_found | Invalid_argument _ | Failure _ -> '.'
@@ -308,7 +338,14 @@ let () =
           end else begin
             let outs = List.concat_map (fun g ->
               let head = List.hd g in
-              if head.is_write then begin
+              if is_group then
+                List.map (fun r ->
+                  match im_handle (fuel_of r) max_paths who c0 (swl r) r.rq with
+                  | RespItems (_, log) -> "GL[" ^ String.concat "," (List.map show_call log) ^ "]"
+                  | _ -> "GL[]") g
+              else if head.kind = "E" then [show_resp (read_events c0.cf_fabs who c0.cf_node (paths_of head) queue)]
+              else if head.kind = "S" then [show_resp (subscribe_events c0.cf_fabs who c0.cf_node (paths_of head) queue)]
+              else if head.is_write then begin
                 let chs = chunks_of g in
                 (* every chunk is a message of its own: the handler-call count of the switches restarts *)
                 let rec go (rs : preq list) (cs : wchunk list) : string list =
